@@ -78,3 +78,78 @@ def spellings(b, with_script=False):
     if with_script:
         out.append(('cscript', CScript(bytes(b))))
     return out
+
+
+_POISON = [0]
+
+
+def poison():
+    try:
+        _poison()
+    except Exception:
+        pass
+
+
+def _poison():
+    """Operations that FAIL half-way, on fresh throw-away objects, each swallowed: a serialisation that raises in the middle
+    (a field that does not fit its wire width), an encoder / decoder / builder / parser given something it refuses, a
+    signature hash for an input that does not exist. None of this may leave anything behind - the runner interleaves it with
+    the real cases of every property (one call in five), so that scratch state kept across calls anywhere in the library
+    (module-level buffers, flags, memo tables reset only on success) shows up as a wrong answer for the NEXT, valid case."""
+    import io
+    from bitcoin.core import CMutableTransaction, CMutableTxIn, CMutableTxOut, CMutableOutPoint, CBlockHeader, CBlock
+    from bitcoin.core.script import SignatureHash, SIGVERSION_WITNESS_V0
+    _POISON[0] += 1
+    k = _POISON[0]
+    bad = []
+    t = CMutableTransaction([CMutableTxIn(CMutableOutPoint(b'\x06' * 32, k % 7), CScript(b'\x51' * (k % 5)))],
+                            [CMutableTxOut(5, CScript(b'\x52')), CMutableTxOut(1 << 63, CScript(b'\x53'))], 0, 2,
+                            mk_witness([[b'poison']]))
+    bad += [t.serialize, t.GetHash, t.GetTxid, t.calc_weight, lambda: hash(t), lambda: t.stream_serialize(io.BytesIO())]
+    t2 = CMutableTransaction([CMutableTxIn(CMutableOutPoint(b'\x06' * 32, 1), CScript(b'\x51'))], [CMutableTxOut(5, CScript(b'\x52'))], 0, 1)
+    t2.nLockTime = 1 << 32
+    bad += [t2.serialize, t2.GetHash, lambda: SignatureHash(CScript(b'\x51'), t2, 0, 1),
+            lambda: SignatureHash(CScript(b'\x51'), t, 0, 1, amount=1 << 63, sigversion=SIGVERSION_WITNESS_V0),
+            lambda: SignatureHash(CScript(b'\x51'), t2, 5, 3), lambda: SignatureHash(CScript(b'\x51'), t, 0, 0x80000001)]
+    sh_fail = [lambda: SignatureHash(CScript(b'\x51'), t, 0, 1, amount=1 << 63, sigversion=SIGVERSION_WITNESS_V0),
+               lambda: SignatureHash(CScript(b'\x51'), t, 0, 1, amount=None, sigversion=SIGVERSION_WITNESS_V0),
+               lambda: SignatureHash(CScript(b'\x51'), t, 0, 0x80000001), lambda: SignatureHash(CScript(b'\x51' * 3), t, 0, 3)]
+    tail_ = sh_fail + [t.calc_weight, lambda: CBlock(vtx=[t]).GetWeight(), t2.serialize, t.GetTxid, t.GetHash, lambda: hash(t), t.serialize]
+    bad += tail_
+    bad += [lambda: CBlockHeader(1, b'\x01' * 32, b'\x02' * 32, -1, 0, 0).serialize(), lambda: CBlock(vtx=[t]).GetWeight(),
+            lambda: CBlock(hashMerkleRoot=b'\x09' * 32, vtx=[t2]), lambda: CScript([b'ab', object()]), lambda: CScript([1, None]),
+            lambda: list(CScript(b'\x4c')), lambda: CScript(b'\x4d\x05').is_push_only()]
+    import bitcoin.base58 as B58
+    import bitcoin.segwit_addr as SA
+    import bitcoin.bech32 as B32
+    from bitcoin.wallet import CBitcoinAddress, CBitcoinSecret
+    bad += [lambda: B58.decode('11l0'), lambda: B58.decode('z' * (k % 9) + 'Ł'), lambda: B58.CBase58Data('1111'), lambda: B58.CBase58Data('3QJmnh'),
+            lambda: SA.encode('bc', 0, b'\x00' * 21), lambda: SA.encode('bc', 17, b'\x00' * 20), lambda: SA.decode('bc', 'bc1qw508d6qejxtdg4y5r3zarvary0c5xw7kv8f3t5'),
+            lambda: B32.CBech32Data('tb1qqqqqqqqqqqqqqqqqqqqqqqqqqqqqqqqqq3c2e6x'), lambda: CBitcoinAddress('1' * 30), lambda: CBitcoinAddress('bc1zw508d6qejxtdg4y5r3zarvaryvqyzf3du'),
+            lambda: CBitcoinSecret('5' * 20)]
+    try:
+        from bitcoin.messages import msg_inv, msg_addr, msg_headers, MsgSerializable
+        from bitcoin.net import CInv, CAddress
+        mi = msg_inv()
+        ci = CInv()
+        ci.type = 1 << 40
+        mi.inv = [CInv(), ci]
+        ma = msg_addr()
+        a_ = CAddress()
+        a_.ip = 'not-an-ip'
+        ma.addrs = [CAddress(), a_]
+        mh = msg_headers()
+        mh.headers = [CBlockHeader(), object()]
+        bad += [mi.to_bytes, ma.to_bytes, mh.to_bytes, lambda: MsgSerializable.from_bytes(b'\xf9\xbe\xb4\xd9' + b'inv' + bytes(9) + b'\x05\x00\x00\x00' + bytes(4) + bytes(5)),
+                lambda: MsgSerializable.stream_deserialize(io.BytesIO(b'\xf9\xbe\xb4\xd9verack' + bytes(6) + bytes(3)))]
+    except Exception:
+        pass
+    # order matters: a SUCCESSFUL operation of the same kind later on would flush whatever a failed one left behind, unobserved.
+    # So: everything else first, then the signature-hash failures, then the weight failure, then the serialisation failures -
+    # and nothing after them
+    first = [f for f in bad if f not in tail_]
+    for f in first + tail_:
+        try:
+            f()
+        except Exception:
+            pass
